@@ -19,6 +19,7 @@ EXPECT = {"tooloff": "M05", "poweroff": "M05", "cooloff": "M09", "ehalt 0": "M05
 def oracle(lines, recs, im):
     out = []
     for i, (ln, rec) in enumerate(zip(lines, recs)):
+        ln = " ".join(ln.split()[:2]) if ln.startswith("ehalt") else ln     # `ehalt <reset> <message length>`
         if ln in EXPECT:
             r = parse_record(rec)
             if r["out"] != "ok":
@@ -48,6 +49,10 @@ def histories(R, n):
             # states in which the machine position is (partly) unknown: right after homing or probing
             h.append(R.rng.choice(["home", "home x=0", "home z=0 y=0", "probe towards z=-1", "probe away-no-error x=1 y=1"]))
         shut = R.rng.choice(SHUT)
+        if shut.startswith("ehalt") and R.rng.random() < 0.3:
+            # the emergency stop right after the program was already halted (same or another way): it still does its whole job
+            h += ["tooloff", "cooloff", R.rng.choice(["halt pause", "halt end-with-reset", "ehalt 0", "ehalt 1", "halt end-without-reset",
+                                                       "halt optional-pause"])]
         if shut.startswith("ehalt") and R.rng.random() < 0.4:
             shut += " " + str(R.rng.choice([60, 250, 400, 2000]))    # length of the operator message
         h.append(shut)
@@ -130,6 +135,46 @@ def fault_cases(R, n):
             R.fail(case, "tool or coolant still reported active after the second emergency_halt()", tag="still-active")
 
 
+def styled_cases(R, n):
+    """oracle-only: builders configured with every comment style the formatter supports; the operator message of the
+    emergency stop (and earlier comments / raw statements) contains text that looks like tool and coolant words.  Whatever
+    the message says, the four statements come out and the devices are reported off."""
+    from . import fmt_common as fc
+
+    texts = ["M08 stuck", "M3 M7 on", "coolant M8", "spindle (M03) jam", "M05 M09 failed; M04", "m8 m3", "tool M4 / mist M7",
+             "T1 M6", "M00", "x", "M30 M2", "S1000 M03", "G1 X5 M08"]
+    for _ in range(n):
+        r = R.rng
+        symbols = r.choice(fc.ALL_SYMBOLS)
+        opening, closing = fc.style_of(symbols)
+        g, w = fc.make_builder(5, symbols, "\n")
+        prep = r.choice([["tool_on"], ["power_on"], ["coolant_on"], ["tool_on", "coolant_on"], [], ["comment"], ["coolant_on", "comment"]])
+        text, reset = r.choice(texts), r.random() < 0.5
+        case = {"comment_symbols": symbols, "prepare": prep, "message": text, "reset": reset}
+        R.evaluations += 1
+        R.count("styled:" + ("pair" if closing else "eol"))
+        try:
+            for p_ in prep:
+                {"tool_on": lambda: g.tool_on("clockwise", 1000), "power_on": lambda: g.power_on("dynamic", 40),
+                 "coolant_on": lambda: g.coolant_on("flood"), "comment": lambda: g.comment(r.choice(texts))}[p_]()
+        except Exception as e:  # noqa
+            R.fail(case, f"preparing the state raised {type(e).__name__}: {e}", tag="styled-prepare")
+            continue
+        n0 = len(w.raw)
+        try:
+            g.emergency_halt(text, reset)
+        except Exception as e:  # noqa
+            R.fail(case, f"emergency_halt() raised {type(e).__name__}: {e}", tag="shutdown-rejected")
+            continue
+        out = b"".join(w.raw[n0:]).decode("utf-8")
+        got = ";".join(" ".join(ws) for ws in fc.strip_comments(out, opening, closing))
+        want = "M05;M09;" + ("M30" if reset else "M00")
+        if got != want:
+            R.fail(case, f"emergency_halt() executable output {got or 'nothing'}, expected {want} (raw {out!r})", tag="shutdown-output")
+        elif g.state.is_tool_active or g.state.is_coolant_active:
+            R.fail(case, "tool or coolant still reported active after emergency_halt()", tag="still-active")
+
+
 def run(R: core.Run):
     R.rule = ("random histories reaching tool on (either API, any power) / coolant on / halted / bounded states, incl. tool-power "
               "ranges that exclude zero, each ending in tool_off, power_off, coolant_off or emergency_halt; non-trivial = tool "
@@ -143,6 +188,7 @@ def run(R: core.Run):
     bc.correspond(R, corpus, KEYS, True, "corpus", oracle, nt)
     bc.correspond(R, histories(R, R.n(1500, 20000)), KEYS, True, "random", oracle, nt)
     fault_cases(R, R.n(60, 1000))
+    styled_cases(R, R.n(300, 3000))
     if R.broken:
         R.search_batches += 1
         for h in histories(R, R.n(1500, 5000)):
